@@ -31,7 +31,7 @@ ASSUMPTIONS = ["a qualified name that has more than one valid decomposition unde
 TIMEOUT = 600
 ALPHA = "abcXY019._-+=:#@"
 IDENT = re.compile(r"^[A-Za-z_][A-Za-z0-9_]*(\.[A-Za-z_][A-Za-z0-9_]*)*$")
-EVOLUTIONS = ["unchanged", "edited", "removed", "plain", "reclustered", "bumped", "edited_twice"]
+EVOLUTIONS = ["unchanged", "edited", "removed", "renamed", "plain", "reclustered", "bumped", "edited_twice"]
 
 
 def cases(tier, seed):
@@ -254,6 +254,8 @@ def evo_module(cluster, stage, evolution):
         callee = (callee_v1 % "").replace("x + 1", "x + %d" % (stage + 1))
     elif evolution == "removed":
         callee = ""
+    elif evolution == "renamed":
+        callee = (callee_v1 % "").replace("def callee(", "def callee_v2(").replace('"callee"', '"callee_v2"')
     elif evolution == "plain":
         callee = 'def callee(x):\n    return x + 1\n'
     elif evolution == "reclustered":
@@ -262,7 +264,7 @@ def evo_module(cluster, stage, evolution):
         callee = callee_v1 % ', version="2"'
     return ("import twosigma.memento as m\nfrom vf.recorder import REC\nCL = %r\n\n%s\n"
             "@m.memento_function(cluster=CL, version=\"pinned\")\ndef caller(x):\n    REC.hit(\"caller\", x)\n"
-            "    return [x, callee(x)]\n" % (cluster, callee))
+            "    return [x, %s(x)]\n" % (cluster, callee, "callee_v2" if (evolution == "renamed" and stage > 0) else "callee"))
 
 
 def evo_child(arg):
